@@ -16,7 +16,7 @@ sys.path.insert(0, os.path.dirname(os.path.dirname(os.path.abspath(__file__))))
 
 import z3
 
-from mirsym import artifacts, program, engine, models_std, models_tau, doc, strings as S   # noqa
+from mirsym import artifacts, program, engine, models_std, models_tau, models_chars, doc, strings as S   # noqa
 from mirsym.vals import *   # noqa
 from mirsym.engine import Unsupported, Inconclusive, BoundExceeded, PurityViolation, PanicEx
 
